@@ -42,6 +42,7 @@ def cases(draw):
     case["selections"] = sels
     # free-text summary entries left empty (the typed ones - ints, floats, ids - must be filled)
     case["summary_blank"] = draw(st.one_of(st.none(), st.integers(0, 10**6)))
+    case["via_cache"] = draw(st.sampled_from([False, False, True]))
     # flag / code columns that are usually constant over a file change from line to line
     if draw(st.integers(0, 3)) == 0:
         for im in case["images"]:
@@ -63,6 +64,8 @@ def classify(case):
         labels.append("selections")
     if case.get("summary_blank") is not None:
         labels.append("empty-summary-values")
+    if case.get("via_cache"):
+        labels.append("via-cache")
     if any(im.get("vary_constants") for im in case["images"]):
         labels.append("varying-flag-columns")
     return case["level"] == "1.1" or blank, labels
@@ -107,8 +110,17 @@ def run_case(case):
         spec["summary_entries"] = entries
     files, info = product.build_product(spec)
     out = []
-    with harness.Materialised(files, "memory") as prod:
-        tree, err = harness.guard(harness.open_tree, prod.url, records_per_chunk=case["rpc"], use_cache=False)
+    via_cache = bool(case.get("via_cache"))
+    with harness.Materialised(files, "local" if via_cache else "memory") as prod:
+        if via_cache:
+            # the tree assembled from index caches (written by a first open) is held to the same predicate
+            _, err = harness.guard(harness.open_tree, prod.url, records_per_chunk=1024, use_cache=False, create_cache=True)
+            tree, err2 = harness.guard(harness.open_tree, prod.url, records_per_chunk=case["rpc"], use_cache=True)
+            err = err or err2
+        else:
+            tree, err = harness.guard(harness.open_tree, prod.url, records_per_chunk=case["rpc"], use_cache=False)
+        if via_cache:
+            common.drop_user_cache(prod.url, info["names"]["sar_imagery"])
         if err is not None:
             return [harness.disc("exception", "open_alos2", "a tree", harness.exc_text(err))]
         for node in tree.subtree:
